@@ -758,3 +758,293 @@ Proof.
   - destruct (error_on_wire q tcp 4 eo bytes WQ WE W) as (LEN & r & SD & R).
     split; [assumption|]. left. exists r. auto.
 Qed.
+
+(* ======================================================================================
+   D06: REFUSED volume per source, at the level of the pipeline
+   ====================================================================================== *)
+Definition P (z t : N) : N := Proofs.Bucket.pot Bucket.CAP Bucket.RATE z t.
+Lemma rate_pos : 0 < Bucket.RATE. Proof. reflexivity. Qed.
+
+Lemma nth_upd_same {A} i (v d : A) l : (i < length l)%nat -> nth i (upd i v l) d = v.
+Proof.
+  intro H. unfold upd. rewrite app_nth2; rewrite firstn_length_le by lia; [|lia].
+  rewrite Nat.sub_diag. destruct (skipn i l) eqn:E; [|reflexivity].
+  exfalso. assert (length (skipn i l) = 0%nat) by (rewrite E; reflexivity). rewrite skipn_length in H0. lia.
+Qed.
+
+Lemma nth_upd_other {A} i k (v d : A) l : k <> i -> nth k (upd i v l) d = nth k l d.
+Proof.
+  intro NE. unfold upd. destruct (Nat.lt_ge_cases i (length l)) as [L|G].
+  - rewrite <- (firstn_skipn i l) at 3.
+    destruct (Nat.lt_ge_cases k i) as [KL|KG].
+    + rewrite !app_nth1 by (rewrite firstn_length_le; lia). reflexivity.
+    + rewrite !app_nth2 by (rewrite firstn_length_le; lia). rewrite firstn_length_le by lia.
+      destruct (skipn i l) as [|x r]; [reflexivity|].
+      destruct (k - i)%nat eqn:E; [lia | reflexivity].
+  - rewrite skipn_all2 by assumption. rewrite firstn_all2 by assumption. rewrite app_nil_r. reflexivity.
+Qed.
+
+(* each bucket's potential can only go down in a limiter call; the pair pays for what it grants *)
+Lemma lim_check_each z1 z2 t n :
+  Bucket.window Bucket.CAP Bucket.RATE <= t -> t < pow2 32 -> z1 <= t -> z2 <= t ->
+  exists b y1 y2, Bucket.lim_check Bucket.CAP Bucket.RATE (z1, z2) t n = Ok (b, (y1, y2)) /\
+    y1 <= t /\ y2 <= t /\ P y1 t <= P z1 t /\ P y2 t <= P z2 t /\
+    (if b then n else 0) + P y1 t + P y2 t <= P z1 t + P z2 t.
+Proof.
+  intros HW HT H1 H2. unfold Bucket.lim_check. cbn [fst snd].
+  destruct (Proofs.Bucket.take_pot _ _ rate_pos z1 t n HW HT H1) as (b1 & y1 & E1 & Y1 & P1 & B1).
+  rewrite E1. cbn [obind fst snd]. destruct b1.
+  - exists true, y1, z2. unfold P. repeat split; auto; lia.
+  - rewrite (B1 eq_refl) in *.
+    destruct (Proofs.Bucket.take_pot _ _ rate_pos z2 t n HW HT H2) as (b2 & y2 & E2 & Y2 & P2 & B2).
+    rewrite E2. cbn [obind fst snd]. exists b2, z1, y2. unfold P. repeat split; auto; destruct b2; lia.
+Qed.
+
+Definition addr_eqb (a b : Acl.addr) : bool :=
+  match a, b with
+  | Acl.A4 x, Acl.A4 y => x =? y
+  | Acl.A6 x, Acl.A6 y => x =? y
+  | Acl.AUnix, Acl.AUnix => true
+  | _, _ => false
+  end.
+Lemma addr_eqb_eq a b : addr_eqb a b = true -> a = b.
+Proof. destruct a, b; simpl; try discriminate; try reflexivity; intro H; apply N.eqb_eq in H; congruence. Qed.
+
+(* the inputs of one step *)
+Record sin := { x_tns : N; x_ts : N; x_client : Acl.addr; x_port : N; x_local : Acl.addr; x_tcp : bool;
+                x_b : list N; x_u : upstream; x_id : N; x_eo : opts }.
+Definition step mac c st (x : sin) :=
+  dns_step mac c st (x_tns x) (x_ts x) (x_client x) (x_port x) (x_local x) (x_tcp x) (x_b x) (x_u x) (x_id x) (x_eo x).
+
+(* the reply the step assembles (before the size limit and the limiter) *)
+Definition assembled c st (x : sin) : option pkt :=
+  match decode (x_b x) with
+  | Ok q =>
+    match front c (x_client x) (x_port x) q with
+    | Ok rt => match staged_of st q (x_tcp x) (x_tns x) (x_id x) (x_u x) (x_eo x) rt with
+               | Ok (reply, _, _, _) => Some reply
+               | _ => None
+               end
+    | _ => None
+    end
+  | _ => None
+  end.
+
+Definition exempt_b mac st (x : sin) : bool :=
+  match decode (x_b x) with
+  | Ok q =>
+    match cookie_opt q with
+    | Some d =>
+      if lenN d <? 8 then false
+      else match addr_octets (x_local x), addr_octets (x_client x) with
+           | Ok l, Ok r => Cookie.exempt mac (Some d) l r (fst (s_keys st)) (snd (s_keys st))
+           | _, _ => false
+           end
+    | None => false
+    end
+  | _ => false
+  end.
+
+(* a REFUSED reply over UDP to a query without a valid server cookie: what the limiter is about *)
+Definition limited_class mac c st (x : sin) : bool :=
+  negb (x_tcp x) &&
+  match assembled c st x with Some reply => rcode reply =? 5 | None => false end &&
+  negb (exempt_b mac st x).
+
+(* tokens charged / octets sent to source [a] by this step for such a reply *)
+Definition step_tokens mac c st (x : sin) (a : Acl.addr) : N :=
+  match step mac c st x with
+  | Ok (_, Some bytes, _) =>
+    if addr_eqb (x_client x) a && limited_class mac c st x
+    then cast 32 (Bucket.cost (lenN (x_b x)) (lenN bytes)) else 0
+  | _ => 0
+  end.
+Definition step_octets mac c st (x : sin) (a : Acl.addr) : N :=
+  match step mac c st x with
+  | Ok (_, Some bytes, _) => if addr_eqb (x_client x) a && limited_class mac c st x then lenN bytes else 0
+  | _ => 0
+  end.
+
+Fixpoint run_tokens mac c st (xs : list sin) (a : Acl.addr) : N :=
+  match xs with
+  | [] => 0
+  | x :: r => match step mac c st x with
+              | Ok (st', _, _) => step_tokens mac c st x a + run_tokens mac c st' r a
+              | _ => 0
+              end
+  end.
+Fixpoint run_octets mac c st (xs : list sin) (a : Acl.addr) : N :=
+  match xs with
+  | [] => 0
+  | x :: r => match step mac c st x with
+              | Ok (st', _, _) => step_octets mac c st x a + run_octets mac c st' r a
+              | _ => 0
+              end
+  end.
+
+Definition phi (c : cfg) (a : Acl.addr) (st : pstate) (t : N) : N :=
+  P (nth (fst (c_hash c a)) (s_buckets st) 0) t + P (nth (snd (c_hash c a)) (s_buckets st) 0) t.
+
+Definition buckets_ok (t : N) (st : pstate) : Prop :=
+  length (s_buckets st) = 256%nat /\ Forall (fun z => z <= t) (s_buckets st).
+
+Lemma d06_step mac c st x a st' out qs :
+  cfg_ok c -> buckets_ok (x_ts x) st ->
+  Bucket.window Bucket.CAP Bucket.RATE <= x_ts x -> x_ts x < pow2 32 ->
+  step mac c st x = Ok (st', out, qs) ->
+  step_tokens mac c st x a + phi c a st' (x_ts x) <= phi c a st (x_ts x) /\ buckets_ok (x_ts x) st'.
+Proof.
+  intros HC [BL BF] HW HT H. unfold step_tokens. rewrite H. unfold step in H.
+  destruct (decode (x_b x)) as [q|e|p] eqn:D.
+  2: { unfold dns_step in H. rewrite D in H. inversion H; subst. split; [simpl; lia | split; assumption]. }
+  2: { unfold dns_step in H. rewrite D in H. discriminate. }
+  destruct (dns_step_inv _ _ _ _ _ _ _ _ _ _ _ _ _ _ _ _ _ D H)
+    as (rt & reply & c' & store' & bytes & drop & bs & F & S & W & L & -> & ->).
+  assert (AS : assembled c st x = Some reply) by (unfold assembled; rewrite D, F, S; reflexivity).
+  unfold phi, buckets_ok. cbn [s_buckets].
+  destruct HC as [_ HH]. destruct (HH (x_client x)) as (I1 & I2 & I12). destruct (HH a) as (A1 & A2 & A12).
+  unfold limiter_stage in L.
+  set (i := fst (c_hash c (x_client x))) in *. set (j := snd (c_hash c (x_client x))) in *.
+  set (ia := fst (c_hash c a)) in *. set (ja := snd (c_hash c a)) in *.
+  destruct (x_tcp x) eqn:TCP.
+  { inversion L; subst. unfold limited_class. rewrite TCP. rewrite andb_false_r. simpl.
+    split; [lia | split; assumption]. }
+  destruct (N.eqb_spec (rcode reply) 5) as [RC|RC]; cbn [negb] in L.
+  2: { inversion L; subst. unfold limited_class. rewrite AS. destruct (N.eqb_spec (rcode reply) 5); [contradiction|].
+       rewrite andb_false_r, andb_false_r. simpl. split; [lia | split; assumption]. }
+  assert (EXB : exists ex,
+    match cookie_opt q with
+    | Some d => if lenN d <? 8 then Ok false
+                else do l <- addr_octets (x_local x); do r <- addr_octets (x_client x);
+                     Ok (Cookie.exempt mac (Some d) l r (fst (s_keys st)) (snd (s_keys st)))
+    | None => Ok false
+    end = Ok ex /\ exempt_b mac st x = ex).
+  { unfold exempt_b. rewrite D.
+    destruct (cookie_opt q) as [d|]; [|eauto]. destruct (lenN d <? 8); [eauto|].
+    destruct (addr_octets (x_local x)) as [l| |]; cbn [obind] in L; try discriminate.
+    destruct (addr_octets (x_client x)) as [r| |]; cbn [obind] in L; try discriminate.
+    cbn [obind]. eauto. }
+  destruct EXB as (ex & EX & EXB). rewrite EX in L. cbn [obind] in L.
+  assert (Z1 : nth i (s_buckets st) 0 <= x_ts x) by (apply nth_Forall; [assumption | lia]).
+  assert (Z2 : nth j (s_buckets st) 0 <= x_ts x) by (apply nth_Forall; [assumption | lia]).
+  unfold Bucket.should_ratelimit in L. rewrite RC in L. cbn [N.eqb Pos.eqb negb] in L.
+  destruct ex.
+  - (* a good cookie: nothing is charged, nothing changes *)
+    cbn [obind fst snd] in L. inversion L; subst.
+    unfold limited_class. rewrite EXB. rewrite andb_false_r, andb_false_r.
+    assert (SAME : forall k, nth k (upd j (nth j (s_buckets st) 0) (upd i (nth i (s_buckets st) 0) (s_buckets st))) 0
+                             = nth k (s_buckets st) 0).
+    { intro k. destruct (Nat.eq_dec k j) as [->|NJ].
+      - rewrite nth_upd_same by (rewrite upd_length; lia). reflexivity.
+      - rewrite nth_upd_other by assumption. destruct (Nat.eq_dec k i) as [->|NI].
+        + rewrite nth_upd_same by lia. reflexivity.
+        + rewrite nth_upd_other by assumption. reflexivity. }
+    rewrite !SAME. split; [simpl; lia|]. rewrite !upd_length. split; [assumption|].
+    apply upd_Forall; [apply upd_Forall|]; assumption.
+  - destruct (lim_check_each _ _ (x_ts x) (cast 32 (Bucket.cost (lenN (x_b x)) (lenN bytes))) HW HT Z1 Z2)
+      as (b & y1 & y2 & E & Y1 & Y2 & P1 & P2 & PS).
+    rewrite E in L. cbn [obind fst snd] in L. inversion L; subst. clear L.
+    assert (NI : forall k, nth k (upd j y2 (upd i y1 (s_buckets st))) 0 =
+                           if Nat.eq_dec k j then y2 else if Nat.eq_dec k i then y1 else nth k (s_buckets st) 0).
+    { intro k. destruct (Nat.eq_dec k j) as [->|NJ].
+      - rewrite nth_upd_same by (rewrite upd_length; lia). reflexivity.
+      - rewrite nth_upd_other by assumption. destruct (Nat.eq_dec k i) as [->|NI].
+        + rewrite nth_upd_same by lia. reflexivity.
+        + rewrite nth_upd_other by assumption. reflexivity. }
+    split.
+    + rewrite !NI.
+      assert (MONO : forall k, P (if Nat.eq_dec k j then y2 else if Nat.eq_dec k i then y1 else nth k (s_buckets st) 0) (x_ts x)
+                               <= P (nth k (s_buckets st) 0) (x_ts x)).
+      { intro k. destruct (Nat.eq_dec k j) as [->|]; [assumption|]. destruct (Nat.eq_dec k i) as [->|]; [assumption|lia]. }
+      destruct (addr_eqb (x_client x) a) eqn:AE.
+      * apply addr_eqb_eq in AE. subst a. fold i j in ia, ja. subst ia ja.
+        destruct (Nat.eq_dec i j); [contradiction|]. destruct (Nat.eq_dec j j); [|contradiction].
+        destruct (Nat.eq_dec i i); [|contradiction].
+        destruct b; cbn [negb]; [|simpl; lia].
+        destruct (limited_class mac c st x); cbn [andb]; lia.
+      * cbn [andb]. pose proof (MONO ia). pose proof (MONO ja). destruct (negb b); simpl; lia.
+    + rewrite !upd_length. split; [assumption|]. apply upd_Forall; [apply upd_Forall|]; assumption.
+Qed.
+
+Fixpoint xs_sorted (t1 t2 : N) (xs : list sin) : Prop :=
+  match xs with
+  | [] => t1 <= t2
+  | x :: r => t1 <= x_ts x /\ xs_sorted (x_ts x) t2 r
+  end.
+Lemma xs_sorted_le xs : forall t1 t2, xs_sorted t1 t2 xs -> t1 <= t2.
+Proof. induction xs as [|x r IH]; simpl; intros t1 t2 H; [assumption|]. destruct H as [A B]. apply IH in B. lia. Qed.
+
+Lemma phi_time c a st t t' : t <= t' -> phi c a st t' <= phi c a st t + 2 * (Bucket.RATE * (t' - t)).
+Proof.
+  intro H. unfold phi, P.
+  pose proof (Proofs.Bucket.pot_time Bucket.CAP Bucket.RATE rate_pos (nth (fst (c_hash c a)) (s_buckets st) 0) t t' H).
+  pose proof (Proofs.Bucket.pot_time Bucket.CAP Bucket.RATE rate_pos (nth (snd (c_hash c a)) (s_buckets st) 0) t t' H). lia.
+Qed.
+Lemma phi_le c a st t : phi c a st t <= 2 * Bucket.CAP.
+Proof.
+  unfold phi, P.
+  pose proof (Proofs.Bucket.pot_le_cap Bucket.CAP Bucket.RATE rate_pos (nth (fst (c_hash c a)) (s_buckets st) 0) t).
+  pose proof (Proofs.Bucket.pot_le_cap Bucket.CAP Bucket.RATE rate_pos (nth (snd (c_hash c a)) (s_buckets st) 0) t). lia.
+Qed.
+Lemma buckets_ok_mono t t' st : t <= t' -> buckets_ok t st -> buckets_ok t' st.
+Proof. intros H [A B]. split; [assumption | eapply Forall_le_mono; eassumption]. Qed.
+
+Lemma d06_potential mac c a : cfg_ok c -> forall xs st t1 t2,
+  buckets_ok t1 st -> Bucket.window Bucket.CAP Bucket.RATE <= t1 -> t2 < pow2 32 -> xs_sorted t1 t2 xs ->
+  run_tokens mac c st xs a <= phi c a st t1 + 2 * (Bucket.RATE * (t2 - t1)).
+Proof.
+  intros HC. induction xs as [|x r IH]; intros st t1 t2 BO HW HT HS; cbn [run_tokens xs_sorted] in *; [apply N.le_0_l|].
+  destruct HS as [H1 H2]. pose proof (xs_sorted_le _ _ _ H2) as H3.
+  destruct (step mac c st x) as [[[st' out] qs]| |] eqn:E; try apply N.le_0_l.
+  destruct (d06_step mac c st x a st' out qs HC (buckets_ok_mono _ _ _ H1 BO) ltac:(lia) ltac:(lia) E) as [S BO'].
+  specialize (IH st' (x_ts x) t2 BO' ltac:(lia) HT H2).
+  pose proof (phi_time c a st t1 (x_ts x) H1) as PT.
+  assert (D : Bucket.RATE * (t2 - t1) = Bucket.RATE * (t2 - x_ts x) + Bucket.RATE * (x_ts x - t1)).
+  { rewrite <- N.mul_add_distr_l. f_equal. lia. }
+  lia.
+Qed.
+
+(* tokens charged to one source for rate-limited replies (REFUSED, over UDP, no valid server cookie)
+   that were actually sent, over any history of the whole pipeline with wall-clock times in [t1,t2],
+   whatever else the service does in between and whoever else shares its buckets *)
+Lemma d06_tokens mac c a xs st t1 t2 :
+  cfg_ok c -> buckets_ok t1 st -> Bucket.window Bucket.CAP Bucket.RATE <= t1 -> t2 < pow2 32 -> xs_sorted t1 t2 xs ->
+  run_tokens mac c st xs a <= 2 * Bucket.CAP + 2 * (Bucket.RATE * (t2 - t1)).
+Proof.
+  intros HC BO HW HT HS. pose proof (d06_potential mac c a HC xs st t1 t2 BO HW HT HS).
+  pose proof (phi_le c a st t1). lia.
+Qed.
+
+(* every such reply is covered by its charge *)
+Fixpoint run_covered mac c st (xs : list sin) (a : Acl.addr) : Prop :=
+  match xs with
+  | [] => True
+  | x :: r => match step mac c st x with
+              | Ok (st', _, _) => step_octets mac c st x a <= step_tokens mac c st x a /\ run_covered mac c st' r a
+              | _ => True
+              end
+  end.
+
+Lemma d06_octets mac c a xs st t1 t2 :
+  cfg_ok c -> buckets_ok t1 st -> Bucket.window Bucket.CAP Bucket.RATE <= t1 -> t2 < pow2 32 -> xs_sorted t1 t2 xs ->
+  run_covered mac c st xs a ->
+  run_octets mac c st xs a <= 2 * Bucket.CAP + 2 * (Bucket.RATE * (t2 - t1)).
+Proof.
+  intros HC BO HW HT HS RC. etransitivity; [|apply (d06_tokens mac c a xs st t1 t2); assumption].
+  clear BO HS. revert st RC. induction xs as [|x r IH]; intros st RC; cbn [run_octets run_tokens run_covered] in *; [lia|].
+  destruct (step mac c st x) as [[[st' out] qs]| |]; try lia.
+  destruct RC as [A B]. specialize (IH st' B). lia.
+Qed.
+
+(* sufficient: the reply is at most 200 octets or not shorter than the query (and a datagram) *)
+Lemma covered_step mac c st x a st' bytes qs :
+  step mac c st x = Ok (st', Some bytes, qs) ->
+  (lenN bytes <= Bucket.MIN_COST \/ lenN (x_b x) <= lenN bytes) -> lenN bytes < 2147483648 ->
+  step_octets mac c st x a <= step_tokens mac c st x a.
+Proof.
+  intros E H L. unfold step_octets, step_tokens. rewrite E.
+  destruct (addr_eqb (x_client x) a && limited_class mac c st x); [|lia].
+  pose proof (Proofs.Bucket.cost_covers_reply (lenN (x_b x)) (lenN bytes) H) as C.
+  unfold cast. rewrite N.mod_small; [assumption|].
+  unfold Bucket.cost, Bucket.MIN_COST. change (pow2 32) with 4294967296. lia.
+Qed.
